@@ -55,7 +55,7 @@ func VerifC12Cache() {
 			m, u, pp, k := key(st)
 			pool := []int{40, 100, 200}
 			if verifParam("sizes", 0) == 1 {
-				pool = []int{10, 110, 200} // one small + one big fit, two big ones exceed the limit by a hair
+				pool = []int{10, 118, 200} // one small + one big fit, two big ones exceed the limit by a hair
 			}
 			size := pool[verifChoose(fmt.Sprintf("size%d", st), 3)]
 			body := strings.Repeat("x", size-len(fmt.Sprint(st))) + fmt.Sprint(st)
